@@ -235,7 +235,11 @@ func VerifRun_Session() {
 		}
 	}
 	for k := 0; k < verifParam("STEPS"); k++ {
-		switch verifConcretize(verifRange("op", 0, 6)) {
+		op := verifConcretize(verifRange("op", 0, 6))
+		if mask := verifParamOr("OPMASK", 127); mask&(1<<uint(op)) == 0 {
+			verifAssume(false) // (this registration explores a subset of the operations, with longer histories)
+		}
+		switch op {
 		case 0: // type
 			v := verifConcretize(verifRange("ver", 0, len(sessA)-1))
 			openA()
